@@ -1564,4 +1564,35 @@ example : ∃ a b, (((Tether.new (0 : ℝ) 0 none).defineCal 0.1 ⟨0, 0⟩ ⟨0
     (a.x + b.x) / 2 = (0 + 0.3) / 2 ∧ (a.y + b.y) / 2 = (0 + 0.4) / 2 :=
   define_tether_calibrated 0 0 0.1 (by norm_num) ⟨0, 0⟩ ⟨0.3, 0.4⟩ (Or.inl (by norm_num))
 
+
+/-! ## Non-vacuity of the hypotheses of the round-D theorems (instances) -/
+
+example : kymoWindow (-3) 2 4 2 0 6 = kymoWindowPinned (-3) 2 4 2 0 6 :=
+  kymoWindow_eq_pinned _ _ _ _ _ _ (by decide)
+
+/-- `index_image_refines` on a stepped stack of the harness' pages: `stack[::2][-1].get_image()` is the last frame. -/
+example : (Stack.index ⟨0, 5, 2, ⟨0, 5, 0, 4⟩⟩ (-1)).toOption.map (·.image (encPage 4 5 1 0)) =
+    (pyIndex (Stack.image ⟨0, 5, 2, ⟨0, 5, 0, 4⟩⟩ (encPage 4 5 1 0)) (-1)).map ([·]) := by decide
+
+/-- `Paged` holds for the stack `ImageStack(...)` builds, hence (by `ranges_slice_refines`) for `stack[1::2]`: its ranges
+    are the slice of the ranges. -/
+example : ∃ r, Stack.ranges ⟨0, 4, 1, ⟨0, 5, 0, 4⟩⟩ [⟨10, 20, 14⟩, ⟨20, 30, 24⟩, ⟨30, 40, 34⟩, ⟨40, 50, 44⟩] false false = some r ∧
+    Stack.ranges ⟨1, 4, 2, ⟨0, 5, 0, 4⟩⟩ [⟨10, 20, 14⟩, ⟨20, 30, 24⟩, ⟨30, 40, 34⟩, ⟨40, 50, 44⟩] false false =
+      some (pySliceStep r (some 1) none 2) := by
+  obtain ⟨r, h1, h2, _⟩ := ranges_slice_refines ⟨0, 4, 1, ⟨0, 5, 0, 4⟩⟩ ⟨1, 4, 2, ⟨0, 5, 0, 4⟩⟩ (by decide)
+    [⟨10, 20, 14⟩, ⟨20, 30, 24⟩, ⟨30, 40, 34⟩, ⟨40, 50, 44⟩]
+    (fresh_paged [⟨10, 20, 14⟩, ⟨20, 30, 24⟩, ⟨30, 40, 34⟩, ⟨40, 50, 44⟩] ⟨0, 5, 0, 4⟩) (some 1) none (some 2) (by decide) (by decide) false
+  exact ⟨r, h1, h2⟩
+
+/-- `visible_frames_resolve`: 6 pages in files of 3, 2 and 1 pages; frame 4 of the fresh stack is page 1 of file 1. -/
+example : ∃ (f : Nat) (q : Int), getFrame [3, 2, 1] 4 = some (f, q) ∧ f < 3 ∧ 0 ≤ q ∧
+    q < (([3, 2, 1] : List Nat).getD f 0 : Nat) ∧ ((([3, 2, 1] : List Nat).take f).map Int.ofNat).sum + q = 4 :=
+  visible_frames_resolve ⟨0, 6, 1, ⟨0, 5, 0, 4⟩⟩
+    [⟨1, 2, 2⟩, ⟨2, 3, 3⟩, ⟨3, 4, 4⟩, ⟨4, 5, 5⟩, ⟨5, 6, 6⟩, ⟨6, 7, 7⟩]
+    (fresh_paged [⟨1, 2, 2⟩, ⟨2, 3, 3⟩, ⟨3, 4, 4⟩, ⟨4, 5, 5⟩, ⟨5, 6, 6⟩, ⟨6, 7, 7⟩] ⟨0, 5, 0, 4⟩) [3, 2, 1] (by decide) 4 (by decide)
+
+/-- `retether_maps_content` needs a non-degenerate existing tether only. -/
+example : ∃ t : Tether ℝ, ∃ e, t.ends = some e ∧ (e.1.x ≠ e.2.x ∨ e.1.y ≠ e.2.y) :=
+  ⟨⟨1, 2, some (⟨1, 2⟩, ⟨4, 6⟩)⟩, (⟨1, 2⟩, ⟨4, 6⟩), rfl, Or.inl (by norm_num)⟩
+
 end Verif.C07
